@@ -386,6 +386,12 @@ func updateCases() []updCase {
 	add("valid-then-ill-typed", "ill-typed", "cache.max_cache_size", "4G", "logging.max_backups", "three")
 	add("three-keys-last-invalid", "invalid", "cache.max_cache_size", "4G", "logging.level", "ERROR", "proxy.listen", "")
 	add("valid-and-invalid-same-section", "invalid", "cache.cleanup_interval", "10m", "cache.memory.memory_budget_percent", 400)
+	// documents that REPEAT a value an earlier valid document may have set (a rollback must restore
+	// the value in effect before this update, not an older one)
+	add("repeat-limit-then-invalid", "invalid", "cache.max_cache_size", "2G", "cache.memory.memory_budget_percent", 400)
+	add("repeat-level-then-invalid", "invalid", "logging.level", "WARN", "proxy.listen", "")
+	add("repeat-two-then-ill-typed", "ill-typed", "cache.max_cache_size", "3G", "cache.cleanup_interval", "45m", "logging.max_backups", "three")
+	add("limit-valid-again", "valid", "cache.max_cache_size", "2G")
 	return cs
 }
 
@@ -547,15 +553,22 @@ func scenarioPersistFaults(c *vrun.Ctx) {
 		b, _ := os.ReadFile(configPath.Path)
 		fileLen = len(b)
 	})
-	plans := []struct {
-		name string
-		plan vos.Plan
-	}{{"create-fails", vos.Plan{FailCall: 0, FailOp: "create", WriteLimit: -1}}}
-	for b := 0; b < fileLen; b++ {
-		plans = append(plans, struct {
-			name string
-			plan vos.Plan
-		}{fmt.Sprintf("write-fails-after=%d", b), vos.Plan{FailCall: -1, WriteLimit: b}})
+	type planT struct {
+		name   string
+		plan   vos.Plan
+		repeat bool
+	}
+	var plans []planT
+	for _, rep := range []bool{false, true} {
+		sfx := ""
+		if rep {
+			sfx = "/value-already-in-effect"
+		}
+		plans = append(plans, planT{"create-fails" + sfx, vos.Plan{FailCall: 0, FailOp: "create", WriteLimit: -1}, rep})
+		plans = append(plans, planT{"rename-fails" + sfx, vos.Plan{FailCall: 0, FailOp: "rename", WriteLimit: -1}, rep})
+		for b := 0; b < fileLen; b++ {
+			plans = append(plans, planT{fmt.Sprintf("write-fails-after%s=%d", sfx, b), vos.Plan{FailCall: -1, WriteLimit: b}, rep})
+		}
 	}
 	for i, pl := range plans {
 		if !c.Mine(i) {
@@ -565,10 +578,18 @@ func scenarioPersistFaults(c *vrun.Ctx) {
 		var problem, kind string
 		ex := run(func() {
 			cfg := freshConfig()
+			if pl.repeat {
+				// the value is already in effect (set by an earlier accepted update)
+				if _, err := UpdatePartialFromConfig(cfg, doc("cache.max_cache_size", "2G", "logging.max_backups", 5)); err != nil {
+					problem, kind = "setup update failed: "+err.Error(), "setup"
+					return
+				}
+				vsched.Quiesce()
+			}
 			before := snapshot(cfg)
 			fileBefore, _ := os.ReadFile(configPath.Path)
 			vos.Begin(pl.plan)
-			st, err := UpdatePartialFromConfig(cfg, doc("cache.max_cache_size", "2G"))
+			st, err := UpdatePartialFromConfig(cfg, doc("cache.max_cache_size", "2G", "logging.max_backups", 7))
 			vos.End()
 			vsched.Quiesce()
 			if err == nil && st != UpdateStatusFailed {
